@@ -3,20 +3,23 @@ namespace MayVerif.Io
 
 set_option hygiene false in
 macro "wprep" : tactic => `(tactic| (
+  obtain ⟨hF, hD, hR, hO, hS⟩ := hc
   obtain ⟨k0, lt, ls, lk, lw, lq, wt, ws, wk, ww, wq, u1, nb, nd⟩ := h
   have hlw := lw w; have hww := ww w
   (try simp [hpc, wHolds] at hlw); (try simp [hpc, wHolds] at hww)))
 
 set_option maxHeartbeats 8000000 in
-theorem inv1_wstep (st st' : St) (w : Wk) (pc : WPc) (e : Env) (h : Inv1 st)
+theorem inv1_wstep (st st' : St) (w : Wk) (pc : WPc) (e : Env) (hc : Cfg st) (h : Inv1 st)
     (hpc : st.wpc w = pc) (hs : wstep st w pc e = some st') : Inv1 st' := by
   cases pc with
   | idle => wprep; cases e <;> crunch
   | sTake s => wprep; crunch
   | sDis s c => wprep; crunch
+  | fChk s t => wprep; crunch
   | fOr s t => wprep; crunch
   | fTake s t => wprep; crunch
   | xio c => wprep; crunch
   | xtake s => wprep; crunch
+  | xDis s c => wprep; crunch
 
 end MayVerif.Io
